@@ -4,11 +4,15 @@ package scipipe
 // inserted value is replaced again by a later round, because every round replaces in the evolving path.
 
 import (
+	"os"
 	"testing"
 )
 
 func TestVerifF11(t *testing.T) {
 	initTestLogsVerif()
+	cwd, _ := os.Getwd()
+	os.Chdir(t.TempDir()) // NewWorkflow creates a log directory in the working directory
+	defer os.Chdir(cwd)
 	wf := NewWorkflow("f11wf", 1)
 	p := wf.NewProc("p", "echo {p:a} {p:b} > {o:out}")
 	p.SetOut("out", "{p:a}.{p:b}.txt")
